@@ -18,6 +18,9 @@ import traceback
 
 import z3
 
+import json as _json
+
+PIN = _json.loads(os.environ.get("VF_PIN", "null"))  # debugging aid: pin symbolic inputs to a model
 MAX_DECISIONS = int(os.environ.get("VF_MAX_DECISIONS", "6000"))
 QUERY_TIMEOUT_MS = int(os.environ.get("VF_QUERY_TIMEOUT_MS", "20000"))
 
@@ -342,6 +345,8 @@ class Ctx:
             raise HarnessError(f"duplicate symbolic variable {name}")
         c = z3.Int(name)
         self.vars[name] = c
+        if PIN and name in PIN:
+            self.solver.add(c == int(PIN[name]))
         if lo is not None:
             self.solver.add(c >= lo)
         if hi is not None:
@@ -363,6 +368,8 @@ class Ctx:
             raise HarnessError(f"duplicate symbolic variable {name}")
         c = z3.Bool(name)
         self.vars[name] = c
+        if PIN and name in PIN:
+            self.solver.add(c == bool(PIN[name]))
         return SymBool(c)
 
     def choice(self, name, n):
